@@ -417,6 +417,22 @@ pub mod verif_taps {
             service_state,
         )
     }
+
+    pub fn report_proxy_agent_service_status(
+        output: Result<Output, Error>,
+        status_folder: PathBuf,
+        seq_no: &str,
+        status: &mut StatusObj,
+        status_state_obj: &mut common::StatusState,
+    ) {
+        super::report_proxy_agent_service_status(
+            output,
+            status_folder,
+            seq_no,
+            status,
+            status_state_obj,
+        )
+    }
 }
 
 fn extension_substatus(
